@@ -844,3 +844,35 @@ Qed.
 (* suite C06order: the pass-through model meets its checker *)
 Lemma C06order_model_ok_lemma : forall os ol, ok_C06order os ol (run_C06order os ol) = true.
 Proof. intros os ol. unfold ok_C06order, run_C06order. rewrite !N.eqb_refl. reflexivity. Qed.
+
+(* suite C06ordstd: the forwarding model meets its checker *)
+Lemma C06ordstd_model_ok_lemma : forall kind order, ok_C06ordstd kind order (run_C06ordstd kind order) = true.
+Proof.
+  intros kind order. unfold ok_C06ordstd, run_C06ordstd, std_rejects.
+  destruct (kind =? 0); [destruct ((order =? 2) || (order =? 3))|destruct ((order =? 1) || (order =? 3))]; reflexivity.
+Qed.
+(* forwarded unchanged <-> refused exactly where std refuses; a model that weakens or strengthens a refused ordering into an
+   accepted one (or the other way round) is rejected by the checker *)
+Lemma C06ordstd_checker_sharp_lemma : forall kind order st, kind <= 1 -> order <= 4 ->
+  ok_C06ordstd kind order st = true ->
+  (st = 2 <-> (kind = 0 /\ (order = 2 \/ order = 3)) \/ (kind = 1 /\ (order = 1 \/ order = 3))) /\ (st = 2 \/ st = 0).
+Proof.
+  intros kind order st K O. unfold ok_C06ordstd.
+  assert (KK : kind = 0 \/ kind = 1) by lia.
+  assert (OO : order = 0 \/ order = 1 \/ order = 2 \/ order = 3 \/ order = 4) by lia.
+  destruct KK as [-> | ->]; destruct OO as [-> | [-> | [-> | [-> | ->]]]]; cbn;
+    intros E; apply N.eqb_eq in E; subst st; (split; [split; [intros X; try discriminate X; tauto | intros X; lia]|lia]).
+Qed.
+(* store buffering: no sequentially consistent schedule yields r0 = r1 = 0 *)
+Lemma sb_forbidden_under_sc_lemma : forall l, In l sb_schedules -> sb_result l <> (0, 0).
+Proof.
+  intros l I. vm_compute in I.
+  repeat (destruct I as [<- | I]; [vm_compute; discriminate|]). contradiction.
+Qed.
+Lemma sb_schedules_complete_lemma : length sb_schedules = 6%nat /\
+  forall l, In l sb_schedules -> filter (fun e => match e with SbW0 | SbR0 => true | _ => false end) l = [SbW0; SbR0] /\
+                                 filter (fun e => match e with SbW1 | SbR1 => true | _ => false end) l = [SbW1; SbR1].
+Proof.
+  split; [reflexivity|]. intros l I. vm_compute in I.
+  repeat (destruct I as [<- | I]; [split; reflexivity|]). contradiction.
+Qed.
